@@ -53,12 +53,60 @@ class Obj:
         return f"Obj({self.v!r})"
 
 
+class Pt(typing.NamedTuple):
+    x: int
+    y: int
+
+
+PtOld = __import__("collections").namedtuple("PtOld", "x y")
+
+
+class TupleSub(tuple):
+    pass
+
+
+class FrozenSub(frozenset):
+    pass
+
+
+class IntSub(int):
+    pass
+
+
+class StrSub(str):
+    pass
+
+
+class FloatSub(float):
+    pass
+
+
+class BytesSub(bytes):
+    pass
+
+
+class ListSub(list):
+    pass
+
+
+class DictSub(dict):
+    pass
+
+
+class SetSub(set):
+    pass
+
+
 IMMUTABLE_DEFAULTS = [
+    # one-element tuples and subclass instances of every type the literal renderer inlines
+    (5,), ((1,),), ("a",), (None,), ((), (2,)), Pt(0, 1), PtOld(2, 3), (Pt(0, 0), Pt(2, 3)), TupleSub((1, 2)), FrozenSub({1}), IntSub(5), IntSub(0), StrSub("s"), StrSub(""),
+    FloatSub(1.5), BytesSub(b"b"), (IntSub(1), StrSub("x")), frozenset({IntSub(3)}), frozenset({(1,)}),
     Decimal("0"), Decimal("1"), Decimal("1.0"), Fraction(0), Fraction(1), 1.0, 0.0, -0.0, 0j, 1 + 0j, IE8.Z, IE8.O, SE8.E, SE8.A, None, ..., NotImplemented,
     float("nan"), float("inf"), range(0, 10, 2), range(3), slice(1, 5, 2), slice(None, 4), b"", b"ab", True, False, 0, 1, -1, 2**70, "", "a'\"\\{}", "é",
     (), (Decimal("1"), IE8.O), (1, (2.0, None)), frozenset(), frozenset({Fraction(1), "x"}), Obj(1), (Obj(2), True), (range(1, 3), 1.0), math.pi, -2.5e-300,
 ]
 MUTABLE_DEFAULTS = [
+    [Pt(1, 2)], {"p": Pt(0, 0)}, [(7,)], {"k": (8,)}, ListSub([1]), DictSub(a=1), SetSub({1}), [ListSub([2])], {"d": DictSub(b=2)}, [IntSub(4), StrSub("y")], [TupleSub((3,))],
     [], {}, set(), bytearray(b""), bytearray(b"x"), [Decimal("1"), [IE8.Z]], {"k": Fraction(1)}, {Decimal("1"): 1}, [range(0, 10, 2)], {1, 2.0}, [float("nan")], [Obj(3)],
     [True, 1, 1.0], {"a": [1, {"b": ()}]}, [slice(1, 2, 3)], [b"x", bytearray(b"y")],
 ]
@@ -68,6 +116,14 @@ def _counting(name, fn):
     def factory():
         FACTORY_CALLS.append(name)
         return fn()
+    factory.__name__ = f"factory_{name}"
+    return factory
+
+
+def _counting_self(name):
+    def factory(self):
+        FACTORY_CALLS.append(name)
+        return ("made-from", type(self).__name__)
     factory.__name__ = f"factory_{name}"
     return factory
 
@@ -126,6 +182,8 @@ def build(kind, fields, with_kwargs=False):  # noqa: C901, PLR0912, PLR0915
             g[f"_validator_{i}"] = (lambda nm: (lambda inst, attr, value: LOG.append(("validator", nm, (attr.name,), {}))))(name)
             if f.req == "default":
                 opts.append(f"default=D{i}")
+            elif f.req == "factory" and f.factory_name.startswith("takes_self"):
+                opts.append(f"default=attrs.Factory(D{i}, takes_self=True)")
             elif f.req == "factory":
                 opts.append(f"factory=D{i}")
             if f.pkind == "ko":
@@ -216,7 +274,9 @@ def gen_fields(rng, kind):
     for nm in names[n_req:]:
         r = rng.random()
         mutable_ok = kind in ("namedtuple", "init", "func", "attrs")
-        if r < 0.3:
+        if r < 0.12 and kind == "attrs":
+            fields.append(FSpec(nm, "factory", _counting_self("takes_self"), "takes_self"))
+        elif r < 0.3:
             fname, fn = rng.choice(FACTORIES)
             if kind == "namedtuple":
                 fields.append(FSpec(nm, "default", rng.choice(IMMUTABLE_DEFAULTS)))
